@@ -46,7 +46,7 @@ import (
 //                      members m having a sign (node = m, key = key of m)
 //   disjoin eligible : node is a member, fact.start = member start, a sign (node = member, key = key of member)
 //   expel eligible   : node is a member, start <= H <= end
-// Part 2 evaluates base.CheckFactSignsBySuffrage directly on the grid n x k x t against k*1000 >= n*t10.
+// Part 2 evaluates base.CheckFactSignsBySuffrage directly on the grid n x t (k = the exact requirement -2..+1, 0 and n; every k for four thresholds) against k*1000 >= n*t10.
 
 const (
 	c17H  = base.Height(33)
@@ -722,7 +722,7 @@ func TestVerifC17(t *testing.T) {
 	r.Rule("part 1: per world (members n, threshold) every set of <= depth distinct operations of the menu and every order of it; orders that give the same pipeline input " +
 		"(proposal order of the non-expel operations + the expel set, which the INIT expel voteproof sorts) are run once; each block is applied by the real DefaultProposalProcessor " +
 		"and compared with the set/integer reference; all orders of one set must give the same suffrage value. non-trivial = at least one operation of the block is eligible. " +
-		"part 2: CheckFactSignsBySuffrage on the full grid n x k member signs x threshold 51.0..100.0 against k*1000 >= n*t10")
+		"part 2: CheckFactSignsBySuffrage for every n x threshold 51.0..100.0 with k member signs in {0, need-2..need+1, n} (need = exact requirement; every k for 51.0/67.0/75.0/100.0) against k*1000 >= n*t10")
 	r.Assume("signature primitives are trusted; the operations were admitted without a further check (the remote-operation path of launch does not call IsValid), so operations failing IsValid are part of the menu and flagged in the signature")
 
 	type worldspec struct{ n, t10, depth int }
@@ -848,9 +848,9 @@ func TestVerifC17(t *testing.T) {
 	}
 
 	// ---- part 2: the sign threshold check itself, on the grid
-	N := 64
+	N := 100
 	if thorough {
-		N = 200
+		N = 300
 	}
 	r.Set("grid_n_max", N)
 	nodes := make([]base.Node, N)
@@ -872,13 +872,30 @@ func TestVerifC17(t *testing.T) {
 		if err != nil {
 			t.Fatal(err)
 		}
-		var accepted, rejected int64
-		for k := 0; k <= n; k++ {
-			for t10 := 510; t10 <= 1000; t10++ {
+		var accepted, rejected, evals int64
+		for t10 := 510; t10 <= 1000; t10++ {
+			// every k for four thresholds; for the others the k around the exact requirement and the extremes
+			need := (n*t10 + 999) / 1000
+			var ks []int
+			if t10 == 510 || t10 == 670 || t10 == 750 || t10 == 1000 {
+				for k := 0; k <= n; k++ {
+					ks = append(ks, k)
+				}
+			} else {
+				seen := map[int]bool{}
+				for _, k := range []int{0, need - 2, need - 1, need, need + 1, n} {
+					if k >= 0 && k <= n && !seen[k] {
+						seen[k] = true
+						ks = append(ks, k)
+					}
+				}
+			}
+			for _, k := range ks {
 				id := fmt.Sprintf("grid/n=%d,k=%d,t10=%d", n, k, t10)
-				if _, rp := r.Replaying(); rp && !r.Want(id) {
+				if replaying && !r.Want(id) {
 					continue
 				}
+				evals++
 				got := base.CheckFactSignsBySuffrage(suf, base.Threshold(float64(t10)/10), signs[:k]) == nil
 				want := k*1000 >= n*t10
 				if got {
@@ -898,9 +915,9 @@ func TestVerifC17(t *testing.T) {
 				}
 			}
 		}
-		r.EvalN(int64(n+1) * 491)
-		r.StatesN(int64(n+1) * 491)
-		r.NontrivialN(int64(n+1) * 491)
+		r.EvalN(evals)
+		r.StatesN(evals)
+		r.NontrivialN(evals)
 		if accepted > 0 {
 			r.Outcome("grid:accepted")
 		}
